@@ -18,7 +18,8 @@ impl StatusCodeUpdate {
             return (self.status_code, self.rule_id.as_ref());
         }
 
-        if self.exclude_response_status_codes && !self.on_response_status_codes.contains(&response_status_code) {
+        // 0 means that there is no response yet: an excluded code can only be told from the others once the backend answered
+        if self.exclude_response_status_codes && response_status_code != 0 && !self.on_response_status_codes.contains(&response_status_code) {
             return (self.status_code, self.rule_id.as_ref());
         }
 
